@@ -258,7 +258,28 @@ impl Property for C02 {
                     tree.nodes.push(Node { path: format!("{}/b/a", sp), kind: Kind::File, unreadable: false });
                 }
                 let mut glob = literal_prefix(&parent, true);
-                glob.push(Tok::Lit { text: name, ci: true });
+                match t.below(3) {
+                    // the directory in either casing: a caseless literal, an alternation of the
+                    // two spellings, or a class for the first letter — none of them is invariant
+                    // text on a case-sensitive platform
+                    0 => glob.push(Tok::Alt(vec![vec![Tok::lit(&name)], vec![Tok::lit(&swapped)]])),
+                    1 => {
+                        let mut cs = name.chars();
+                        let f = cs.next().unwrap_or('a');
+                        let rest: String = cs.collect();
+                        let g: char = if f.is_uppercase() { f.to_lowercase().next().unwrap_or(f) } else { f.to_uppercase().next().unwrap_or(f) };
+                        if g != f && f != '-' && g != '-' {
+                            glob.push(Tok::Class { neg: false, items: vec![Item::Ch(f), Item::Ch(g)] });
+                            if !rest.is_empty() {
+                                glob.push(Tok::lit(&rest));
+                            }
+                        }
+                        else {
+                            glob.push(Tok::Lit { text: name.clone(), ci: true });
+                        }
+                    },
+                    _ => glob.push(Tok::Lit { text: name.clone(), ci: true }),
+                }
                 glob.push(Tok::Sep);
                 match t.below(3) {
                     0 => glob.push(Tok::Zom { lazy: false }),
